@@ -178,7 +178,8 @@ def encoder_sections(ctx, pid):
                      "characters that is an (pointer / namespace) identifier; encode_aggregation_block writes '<begin keyword> = <name>', the body "
                      "one level deeper and the end statement of the same family (with the name when aggregation_end); PVLEncoder.encode "
                      "returns only texts whose characters are all allowed by the grammar; ODLEncoder.encode_sequence writes only non-empty, at most "
-                     "two-dimensional sequences of scalars; sequences / sets / units are their content between the dialect's delimiters")
+                     "two-dimensional sequences of scalars; sequences / sets / units are their content between the dialect's delimiters; "
+                     "ODLEncoder.encode_value passes a quantity on only when its magnitude is a non-bool number")
     t0 = time.time()
     contracts = ce.quoting_contracts()
     verify_contracts(s, contracts, EncTheory, ["pvl.encoder"], jobs=ctx.jobs)
@@ -191,6 +192,9 @@ def encoder_sections(ctx, pid):
     # ODL sequence restrictions (nested search loops over the elements) and the text wiring of sequences / sets / units
     verify_contracts(s, ce.collection_contracts(), EncTheory, ["pvl.encoder"], jobs=2)
     verify_contracts(s, ce.wiring_contracts(), EncTheory, ["pvl.encoder"], jobs=2)
+    # quantities: dispatch (PVL/ISIS) and 'units only after numbers' (ODL/PDS3): search loops over the quantity-class records
+    verify_contracts(s, ce.units_contracts(), EncTheory, ["pvl.encoder"], jobs=2)
+    verify_contracts(s, ce.odl_units_contracts(), EncTheory, ["pvl.encoder"], jobs=2)
     s.assumptions += ENC_ASSUMPTIONS
     s.seconds = time.time() - t0
     r = Section("encoder-quoting-runtime-contracts", "bounded", bounded=True,
